@@ -43,6 +43,13 @@ def well_conditioned(J, name, p=None):
         if s == 0:
             return True
         return A.minnorm_exact(A.gram(J)) / (s * s) >= F(1, 10 ** 6)
+    if name == "MGDA":
+        # Frank-Wolfe takes discrete decisions (argmin vertex, branch of gamma, stopping test): inputs
+        # on which one of them is decided by less than float resolution are outside the tie-free
+        # quantifier (found by the thorough run with seed 11: an exact argmin tie at the mean start,
+        # broken differently by float32); 1e-4 relative covers float32
+        pp = p or {}
+        return not A.mgda_has_tie(J, pp.get("epsilon", F(1, 1000)), pp.get("max_iters", 100), rel=1e-4)
     if name not in ("IMTLG", "ConFIG", "AlignedMTL"):
         return True
     mx = A.maxabs(J)
